@@ -19,6 +19,7 @@ var checks = map[string]struct {
 	"C08": {"fault_enumeration", c08},
 	"C29": {"exploration", c29},
 	"C15": {"exploration", c15},
+	"C25": {"exploration", c25},
 }
 
 func main() {
